@@ -36,6 +36,8 @@ CHECKS = {
          "1-2 (quick) / 1-3 (thorough) staged branches (new/existing), fault at every store write (crash or error), then re-run: all-or-nothing, no duplicate commit, one log entry with true old/new per branch; commit/discard after commit are refused and change nothing. In-memory stores with atomic calls stand in for SQLite/badger.", "4 C14"),
  "C15": ("model_checking", "symbolic execution of refsql.filterQuery on a symbolic prefix and ref name; its WHERE clause is evaluated by the documented SQLite operator contract and compared with literal prefix matching by SMT; counterexamples confirmed against real SQLite",
          "ONLY the literal-prefix sub-claim of C15: for every prefix of 1-2 (quick) / 1-3 (thorough) and name of 1-3 / 1-4 printable ASCII characters, listing by prefix selects exactly the names that literally start with it (case-sensitively, no wildcard meaning). Operation sequences, log ordinals, rename/copy carrying logs are SQL executed inside SQLite (cgo) and os calls in the file store: not decided by this technique (DESIGN section 5).", "4 C15"),
+ "C16": ("model_checking", "predictive race analysis: one integer order variable per recorded event (reads/writes of shared cells, channel, WaitGroup, Mutex, go), happens-before constraints, adjacency queries decided by z3 (QF_IDL); plus bounded exploration of cooperative schedules; races confirmed natively under the Go race detector",
+         "Ingest worker pool with 2 real workers over 2-3 blocks and the 3-way merge pipeline (differ, merger, collector, sorter goroutines): no pair of conflicting accesses can be adjacent in any order consistent with the recorded synchronisation; result equals the sequential one under every explored schedule (resumption order at blocking points and at locks of the code under test, capped); an injected store error in a worker reaches the caller. Bounded by one recorded skeleton per configuration (no read-from constraints, first/last access per cell and goroutine); GOMAXPROCS, >2 workers, races inside badger are outside.", "4 C16"),
  "C17": ("model_checking", "bounded symbolic execution of each decoder entry point over a fully symbolic N-byte buffer; panics, step budget and attacker-controlled allocation sizes decided by SMT",
          "ValidateBlockBytes, ValidateStrListBytes, StrListDecoder.Read/ReadBytes, ReadBlockFrom, ReadBlockIndex, UintListDecoder.Read, PackfileReader, ReadPktLine on ALL byte strings of length N <= 8..14 (quick) / 12..40 (thorough): outcome must be value-or-error, steps bounded, no single allocation > 1 MiB. Values >= 24 at sites needing a concrete size are explored through boundary representatives only (stated as a cut).", "4 C17"),
  "C18": ("model_checking", "bounded symbolic execution of the stream decoders over a reader whose per-call read sizes and data+EOF delivery are choice points",
@@ -48,7 +50,6 @@ CHECKS = {
 
 NOT_APPLICABLE = {
  "C09": "end-to-end fetch/push needs HTTP+gzip+JSON and a server that is not in this repository; the mechanisms are decided under C07, C08, C10, C11 (DESIGN section 5)",
- "C16": "goroutine interleavings below the cooperative scheduler are not encoded yet (DESIGN section 4, C16); termination/equivalence under the cooperative schedules is exercised by C01/C04/C19",
 }
 
 def main():
